@@ -358,14 +358,16 @@ fn run_one(rep: &mut Report, sc: Sc12, bound: usize, budget: f64) {
 pub fn run(rep: &mut Report) {
     let thorough = rep.is_thorough();
     rep.exhaustive = false;
-    let bound = if thorough { 3 } else { 2 };
+    // thorough: single-ring scenarios up to 6 preemptions (the per-bound counts in the evidence show
+    // where the space is exhausted: a bound with 0 new schedules means every schedule was run)
+    let bound = if thorough { 6 } else { 2 };
     let per = if thorough { 400.0 } else { 60.0 }; // safety net: the bounds below are chosen so that it is not needed
     for kind in ["disable-enable", "stop-restart", "reset-enable"] {
         run_one(rep, Sc12 { kind, kicks: 1, mutex: false }, bound, per);
     }
-    run_one(rep, Sc12 { kind: "disable-enable", kicks: 1, mutex: true }, if thorough { 2 } else { 1 }, per);
+    run_one(rep, Sc12 { kind: "disable-enable", kicks: 1, mutex: true }, if thorough { 4 } else { 1 }, per);
     // restart with a different descriptor, an early kick on the old one and a final kick on the new one
-    run_one(rep, Sc12 { kind: "stop-restart-newfd", kicks: 2, mutex: false }, if thorough { 2 } else { 1 }, per);
+    run_one(rep, Sc12 { kind: "stop-restart-newfd", kicks: 2, mutex: false }, if thorough { 3 } else { 1 }, per);
     // two rings on one worker: the observed ring's event can sit unread in an epoll batch while the
     // worker is inside the other ring's handler
     for kind in ["2r-disable-enable", "2r-stop-restart", "2r-reset-enable"] {
@@ -376,7 +378,7 @@ pub fn run(rep: &mut Report) {
         run_one(rep, Sc12 { kind: "stop-restart", kicks: 2, mutex: false }, 2, per);
         run_one(rep, Sc12 { kind: "disable-only", kicks: 1, mutex: false }, 3, per);
     }
-    rep.rule = "per scenario (disable/enable, stop(GET_VRING_BASE)/restart, reset/enable; RwLock and Mutex rings; 1-2 kicks): depth-first enumeration of all schedules of {worker thread, daemon thread, frontend script, guest} with at most b preemptions, b = 0,1,2(,3), after a deterministic set-up prefix. Scheduling points: recvmsg, sendmsg, epoll_wait (before / after return), epoll_ctl of the library threads and the entry of the backend's handle_event. Oracle per state: handle_event is not entered after the reply to a disabling/stopping message was written unless a later enabling message was already sent; at the end: the last kick was followed by a dispatch while active, the worker is alive, the frontend's script completed. Non-trivial = schedules with at least one real choice".into();
+    rep.rule = "per scenario (disable/enable, stop(GET_VRING_BASE)/restart, reset/enable; the same on two rings of one worker; restart with a new kick descriptor; RwLock and Mutex rings; 1-2 kicks): depth-first enumeration of all schedules of {worker thread, daemon thread, frontend script, guest} with at most b preemptions, b = 0,1,2 (thorough: up to 6 for single-ring scenarios, 3-4 otherwise), after a deterministic set-up prefix. Scheduling points: recvmsg, sendmsg, epoll_wait (before / after return), epoll_ctl of the library threads, the worker's acquisitions of the ring state lock (hook) and the entry of the backend's handle_event. Oracle per state: handle_event is not entered after the reply to a disabling/stopping message was written unless a later enabling message was already sent; at the end: the last kick was followed by a dispatch while active, the worker is alive, the frontend's script completed. Non-trivial = schedules with at least one real choice".into();
     rep.assumptions.push("data-race freedom between scheduling points (lock-protected or kernel state); sequentially consistent scheduler".into());
     rep.assumptions.push("'states' = distinct (per-thread step counters and states, trace length) fingerprints over all executions".into());
 }
